@@ -45,6 +45,7 @@ Post(p) ==
                               /\ \A i \in 1..Len(p.queue) : queue'[i].reuse = p.queue[i][1] /\ queue'[i].host = p.queue[i][2]
     /\ Has(p, "epoch")     => epoch' = p.epoch
     /\ Has(p, "lastConn")  => lastConn' = p.lastConn
+    /\ Has(p, "refq")      => refq' = p.refq
     /\ Has(p, "now")       => now' = p.now
     /\ Has(p, "due")       => due' = p.due
     \* NoHostAvailable.errors, once the loop thread is through: every host it had to list, with the class it had
@@ -59,10 +60,10 @@ TraceInit ==
     /\ Len(Tr[1].pool) = NHosts
     /\ \A h \in Hosts : Tr[1].pool[h] \in PoolConds \cup {"healthy"}
     /\ Tr[1].idem \in IdemChoices /\ Tr[1].target \in TargetChoices /\ Tr[1].spec \in SpecChoices
-    /\ Tr[1].ids \in IdChoices
+    /\ Tr[1].ids \in IdChoices /\ Tr[1].prep \in PrepChoices
     /\ (100 * Tr[1].budget + Tr[1].delay) \in TimeChoices
     /\ InitWith([h \in Hosts |-> Tr[1].pool[h]], Tr[1].idem, Tr[1].target, Tr[1].spec, Tr[1].ids,
-                <<Tr[1].budget, Tr[1].delay>>)
+                <<Tr[1].budget, Tr[1].delay>>, Tr[1].prep)
 
 TraceNext ==
     /\ l <= Len(Tr)
@@ -73,9 +74,12 @@ TraceNext ==
           \/ e.e = "AnsOk"         /\ e.k \in OkKinds /\ AnsOk(e.a, e.k)
           \/ e.e = "AnsErr"        /\ e.k \in ErrKinds /\ <<e.d, e.c>> \in DecSet /\ AnsErr(e.a, e.k, e.d, e.c)
           \/ e.e = "StoreErr"      /\ StoreErr
+          \/ e.e = "AnsSchema"     /\ "schema" \in OkKinds /\ AnsSchema(e.a)
+          \/ e.e = "RefreshTask"   /\ RefreshTask(e.ok)
           \/ e.e = "AnsFatal"      /\ e.k \in FatalKinds /\ AnsFatal(e.a, e.k)
           \/ e.e = "SpecFire"      /\ SpecFire
           \/ e.e = "TimeoutFire"   /\ TimeoutFire
+          \/ e.e = "RecheckFire"   /\ RecheckFire
           \/ e.e = "RetryTask"     /\ RetryTask
           \/ e.e = "StartNextPage" /\ StartNextPage
        /\ Has(e, "post") => Post(e.post)
